@@ -119,6 +119,20 @@ def c11_chunk(args):
     return bad[:20], stats, qs[:2], nontrivial[:HASH_CAP]
 
 
+def c11_end_to_end(tier, seed, out):
+    """The same arithmetic where a user meets it: recorded sample durations of a real loop on a virtual counter of frequency f
+    must be floor(ticks * 10^12 / f) of the window the event log shows (the frequency travels through Timer::get_tsc, the
+    readings through Timestamp::duration_since)."""
+    from . import loopcheck, loopgen, loop_oracle as LO
+
+    lines = loopgen.gen_c11_e2e(tier, seed)
+    before = out.evaluations
+    shards, agg = loopcheck.run_native("C11", lines, out, checks=[LO.check_c11_chain])
+    out.extra["end_to_end"] = {"loop_runs": out.evaluations - before, "recorded_samples_compared": agg.get("e2e_samples", 0),
+                               "frequencies": sorted({int(l.split(" freq=")[1].split(" ")[0]) for l in lines})[:40]}
+    out.require("e2e_recorded_samples", agg.get("e2e_samples", 0), 100)
+
+
 def c11_precision(exe, tier, seed, out):
     rng = random.Random(seed * 31 + 11)
     n = 120 if tier == "quick" else 3000
@@ -305,6 +319,7 @@ def check(prop, tier, seed, out):
         out.evaluations += n
         out.extra["observed"] = agg
         nclocks = c11_precision(exe, tier, seed, out)
+        c11_end_to_end(tier, seed, out)
         out.extra["distinct_note"] = "distinct_nontrivial = globally de-duplicated (48-bit hash) queries with a non-zero result, at most %d per chunk taking part" % HASH_CAP
         out.require("conversions", agg.get("D", 0), 100_000)
         out.require("precision_clocks", nclocks, 30)
@@ -343,6 +358,19 @@ def check(prop, tier, seed, out):
         out.require("inf_outputs", agg.get("inf", 0), 10)
         miri_pure("C18", ["T 0", "T 999", "T 1000", "T %d" % (2 ** 128 - 1), "T 59999999999999", "H 0 5 0 1", "H 3 %d 1 0" % U64, "B %s 1" % f64_bits(1023.99999),
                           "X %s 4" % f64_bits(0.00009)], out)
+        # end to end: the configured byte format has to reach the table (CLI flag, DIVAN_BYTES_FORMAT, builder call before the
+        # command line is read), and the printed byte / throughput cells are judged against figures known from the spec
+        from . import treecheck
+        jobs = [j for j in treecheck.make_jobs("C20", "quick" if tier == "quick" else "thorough", seed + 318) if j[1].intent.action == "bench"]
+        if tier == "quick":
+            jobs = jobs[:200]
+        else:
+            jobs = jobs[:3000]
+        e2e, _, _ = treecheck.run_jobs("C18", jobs, out, want={"C18"})
+        out.extra["end_to_end"] = {"bench_runs": len(jobs), "binary_format_runs": sum(1 for j in jobs if j[1].intent.binary), "rows_checked": e2e.get("rows_checked", 0),
+                                   "byte_format_channels": sorted({("cli" if "--bytes-format" in j[1].cli else "env" if "DIVAN_BYTES_FORMAT" in j[1].env else "builder")
+                                                                   for j in jobs if any(b[0] == "bytes_format" for b in j[1].builder) or "--bytes-format" in j[1].cli or "DIVAN_BYTES_FORMAT" in j[1].env})}
+        out.require("e2e_rows_checked", e2e.get("rows_checked", 0), 100)
         out.rule = ("durations: exact integer oracle over every unit boundary +-{0..3}, k*unit around 10^j, 10^e +-2 for e<=38, u128::MAX and random values of "
                     "every bit length; throughput/bytes/plain numbers: printed text parsed back and checked against the exact rational (prefix, <= exact, "
                     "< one unit of the last allowed place below, no trailing zeros/exponent, 0 and inf cases, no panic); distinct = generated queries")
@@ -351,6 +379,12 @@ def check(prop, tier, seed, out):
 
 
 def replay(prop, rp, out):
+    if rp["first"]["replay"].get("bin") == "loopdrv":
+        from . import loopcheck
+        return loopcheck.replay(prop, rp, out)
+    if rp["first"]["replay"].get("bin") == "treedrv":
+        from . import treecheck
+        return treecheck.replay(prop, rp, out)
     bins = build.build("release", ["puredrv"])
     q = rp["first"]["replay"].get("query")
     ans = ask(bins["puredrv"], [q])
